@@ -166,7 +166,7 @@ def stop_crit(op, crit, cb):
         nn = 2 * (len(yh) + len(xh))
         if nn == 0:
             return err, True
-        w = [p1[i] - gh[i] for i in range(len(xh))]
+        w = [p1[i] + gh[i] for i in range(len(xh))]      # −(x̂ − ∇ψ(x̂) − Π_C(x̂ − ∇ψ(x̂))), as coded since f69b0f2f3
         cl, dl = norm_1(w), norm_1(yh)
         sd = cmax(100.0, (cl + dl) / float(nn)) / 100.0
         return err / sd, False
